@@ -99,7 +99,8 @@ type SliceV struct {
 }
 
 type MapEntry struct {
-	K, V Value
+	K, V  Value
+	Stale bool // hypothetical entry left in a pooled map by another request (C20)
 }
 type MapObj struct {
 	ID      int
@@ -135,6 +136,8 @@ type RangeIter struct {
 	IsMap bool
 	Keys  []Value
 	Vals  []Value
+	Stale []bool  // per entry: hypothetical leftover of a pooled map
+	Src   *MapObj // the map ranged over
 	Str   StrV
 	Pos   int
 }
